@@ -430,7 +430,17 @@ fn gen_unit_raw(prop: &str, tier: Tier, rng: &mut Rng) -> Vec<Case> {
                 sw.max_cons = 4;
                 gen_model(rng, &sw)
             } else if focus < 7 && general_pool().contains(&Kind::Cumulative) {
-                gen_scheduling_model(rng, th)
+                // gen_scheduling_model leaves the option set to its caller (0): draw one of the 144
+                // combinations from a side stream, so that the main stream of the other slices is
+                // the one the stored seeded changes were measured with
+                let mut side = Rng::new(crate::rng::splitmix(rng.clone().next_u64() ^ 0xC17_0CC5));
+                let (vars, mut cons) = gen_scheduling_model(rng, th);
+                for c in cons.iter_mut() {
+                    if let Con::Cumulative { options, .. } = c {
+                        *options = side.below(144) as u32;
+                    }
+                }
+                (vars, cons)
             } else {
                 gen_model(rng, &sw)
             };
